@@ -71,20 +71,45 @@ def check_model(net, bounds, P, stats, rich=False):
                     out.append(({"fn": "find_blocked_reactions", "check": kind,
                                  "objective": "none" if obj is None else obj[1], "open_exchanges": oe}, case,
                                 f"returned {got}, truly blocked {want}\nmodel {rxns}\ncase {case}"))
-    # fastcc
+    # fastcc: once per objective setting of the input model (which must not matter)
+    first = None
+    for oname, obj in (("none", None), ("max", ({ids[-1]: 1}, "max")), ("min", ({ids[-1]: 1}, "min")),
+                       ("min0", ({ids[0]: 1}, "min"))):
+        got = check_fastcc(net, bounds, mets, rxns, ids, comp, blocked, obj, oname, stats, out)
+        if got is None:
+            continue
+        if first is None:
+            first = (oname, got)
+        elif got != first[1]:
+            case = {"net": [list(c) for c in net], "bounds": [[_j(a), _j(b)] for a, b in bounds], "fastcc": True,
+                    "objective": oname}
+            out.append(({"fn": "fastcc", "check": "result depends on the objective of the input model", "objective": oname},
+                        case, f"objective {oname}: kept {got}; objective {first[0]}: kept {first[1]}\nmodel {rxns}"))
+    return out
+
+
+def check_fastcc(net, bounds, mets, rxns, ids, comp, blocked, obj, oname, stats, out):
+    from cobra.flux_analysis import fastcc
+
     case = {"net": [list(c) for c in net], "bounds": [[_j(a), _j(b)] for a, b in bounds], "fastcc": True}
+    if obj is not None:
+        case["objective"] = oname
     stats["evaluations"] = stats.get("evaluations", 0) + 1
     model = families.build_model(mets, rxns, compartments=comp, rules={ids[0]: "g1 and g2", ids[-1]: "g2 or g3"})
+    if obj is not None:
+        model.objective = {model.reactions.get_by_id(r): c for r, c in obj[0].items()}
+        model.objective_direction = obj[1]
     from .. import observe
 
     before = observe.python_view(model)
+    before_obj = observe.objective_view(model)
     try:
         with warnings.catch_warnings():
             warnings.simplefilter("ignore")
             cm = fastcc(model)
     except Exception as exc:
         out.append(({"fn": "fastcc", "check": "raised", "exc": type(exc).__name__}, case, f"{exc!r}\nmodel {rxns}"))
-        return out
+        return None
     keep = sorted(set(ids) - blocked[False])
     got = sorted(r.id for r in cm.reactions)
     if got != keep:
@@ -108,7 +133,10 @@ def check_model(net, bounds, P, stats, rich=False):
     d = observe.diff(before, after)
     if d:
         out.append(({"fn": "fastcc", "check": "input model changed at " + observe.first_path(d)}, case, "\n".join(d)))
-    return out
+    if observe.objective_view(model) != before_obj:
+        out.append(({"fn": "fastcc", "check": "input model objective changed"}, case,
+                    f"{before_obj} -> {observe.objective_view(model)}"))
+    return got
 
 
 STRUCTURED = [
